@@ -75,6 +75,11 @@ IDIOM_TEMPLATES = [
     ("", '{t} = isinstance({o}, int) or isinstance({o}, str)'),
     ("", '{t} = issubclass(type({o}), int) or issubclass(type({o}), (str, bytes))'),
     ("", '{t} = isinstance({o}, (int, float)) or isinstance({o}, str) or isinstance({o}, bytes)'),
+    # the CLASS operands vary too: a name bound to a tuple of classes, an attribute holding one, a class object from a call
+    ("", '{t} = isinstance({o}, NUMERIC) or isinstance({o}, complex)'),
+    ("", '{t} = isinstance({o}, str) or isinstance({o}, w.kinds)'),
+    ("", '{t} = issubclass(type({o}), NUMERIC) or issubclass(type({o}), (str, w.kinds))'),
+    ("", '{t} = isinstance({o}, type({o})) or isinstance({o}, NUMERIC)'),
     ("from datetime import datetime", '{t} = datetime.fromisoformat({s}.replace("Z", "+00:00"))'),
     ("from datetime import datetime", '{t} = datetime.fromisoformat({s}[:-1] + "+00:00")'),
     ("import datetime as dt", '{t} = dt.datetime.fromisoformat({s}.rstrip("Z") + "+00:00")'),
@@ -93,7 +98,8 @@ OPERANDS = {
     "o": ["o1", "w.o", "ss[0]", "n1"],
 }
 PREAMBLE = (
-    "class W:\n    ss: list[str] = []\n    s: str = ''\n    d: dict[str, int] = {}\n    n: int = 0\n    o: object = None\n\n"
+    "NUMERIC = (int, float)\n"
+    "class W:\n    ss: list[str] = []\n    s: str = ''\n    d: dict[str, int] = {}\n    n: int = 0\n    o: object = None\n    kinds = (bytes, bytearray)\n\n"
     "w = W()\nss: list[str] = ['a', 'b c']\ns1 = 'abc.txt'\ns2 = 'abc'\nd1: dict[str, int] = {}\nd2: dict[str, int] = {}\nn1 = 5\no1: object = 1\n\n"
 )
 CONTEXTS = [
@@ -154,6 +160,7 @@ def version_guard_file() -> str:
         )
         parts.append(f"if sys.version_info >= (3, {minor}):\n" + indent(body) + "else:\n" + indent(body.replace("v", "w")))
         parts.append(f"if sys.version_info < (3, {minor}):\n" + indent(body.replace("v", "x")))
+    parts.append("ya = isinstance(o1, NUMERIC) or isinstance(o1, complex)\nyb = isinstance(o1, str) or isinstance(o1, w.kinds)\nyc = issubclass(type(o1), NUMERIC) or issubclass(type(o1), str)\n")
     return "\n".join(parts)
 
 
